@@ -2,6 +2,8 @@
 // fixed_math, compiled from /repo's working tree (headers + fixed_lib/src/fixed_math.cc)
 // with the flags of ONE build configuration. The explorer dlopen()s it. No oracle code here.
 #include <fixedmath/fixed_math.hpp>
+#include <fixedmath/iostream.h>
+#include <sstream>
 #include <cstring>
 #include <utility>
 #include <array>
@@ -440,6 +442,56 @@ FM_EXPORT void fm_angle_aprox_range(int cosine, int32_t start, size_t n, i64* ou
   if(cosine) for(size_t i=0;i<n;++i) out[i] = cos_angle_aprox(static_cast<int32_t>(static_cast<uint32_t>(start) + static_cast<uint32_t>(i))).v;
   else       for(size_t i=0;i<n;++i) out[i] = sin_angle_aprox(static_cast<int32_t>(static_cast<uint32_t>(start) + static_cast<uint32_t>(i))).v;
   }
+// the angle functions with a literal argument (visible to the optimiser, __builtin_constant_p)
+namespace {
+constexpr int32_t ANGK[] = { 0, 1, 30, 45, 89, 90, 91, 179, 180, 181, 269, 270, 271, 359, 360, 361, 450, 720, 65446, 1 << 20, 2147483647,
+                             -1, -30, -45, -89, -90, -91, -179, -180, -181, -269, -270, -271, -359, -360, -361, -450, -720, -65446, -(1 << 20), -2147483647 - 1 };
+constexpr int NANGK = sizeof(ANGK)/sizeof(ANGK[0]);
+template<int C, int I> FM_NOINLINE i64 angle_constarg() noexcept { if constexpr (C) return cos_angle_aprox(ANGK[I]).v; else return sin_angle_aprox(ANGK[I]).v; }
+template<int... I> constexpr auto angle_constarg_table(std::integer_sequence<int,I...>) noexcept
+  { return std::array<i64(*)(),sizeof...(I)>{{ &angle_constarg<I / NANGK, I % NANGK>... }}; }
+constexpr auto ANGLE_CONSTARG = angle_constarg_table(std::make_integer_sequence<int, 2 * NANGK>{});
+}
+FM_EXPORT int fm_angle_constarg_count(void) { return NANGK; }
+FM_EXPORT int32_t fm_angle_constarg_value(int idx) { return ANGK[idx]; }
+FM_EXPORT i64 fm_angle_constarg(int cosine, int idx) { return ANGLE_CONSTARG[static_cast<size_t>((cosine ? 1 : 0) * NANGK + idx)](); }
+
+// 128-bit integral operands: integral types only in the GNU dialects (std::is_integral_v<__int128> is false under -std=c++NN)
+#if defined(__SIZEOF_INT128__) && !defined(__STRICT_ANSI__)
+namespace {
+template<int OP, typename T, int ORDER> FM_NOINLINE i64 mixed128(i64 a, T t) noexcept
+  {
+  fixed_t x { fx(a) };
+  if constexpr (ORDER==O_FIX_T) { if constexpr (OP==M_MUL) return (x * t).v; else return (x / t).v; }
+  else if constexpr (ORDER==O_T_FIX) { if constexpr (OP==M_MUL) return (t * x).v; else return (x / t).v; }
+  else { if constexpr (OP==M_MUL) x *= t; else x /= t; return x.v; }
+  }
+}
+FM_EXPORT int fm_has_int128(void) { return 1; }
+FM_EXPORT i64 fm_mixed128(int op, int is_unsigned, int order, i64 a, u64 hi, u64 lo)
+  {
+  unsigned __int128 bits = (static_cast<unsigned __int128>(hi) << 64) | lo;
+  return with_c4(order, [&](auto r) -> i64 {
+    constexpr int ORD = decltype(r)::value > 2 ? 2 : decltype(r)::value;
+    (void)is_unsigned;     // unsigned __int128 operands do not compile with the library (no signed type of twice the size): signed only
+    if( op == M_MUL ) return mixed128<M_MUL, __int128, ORD>(a, static_cast<__int128>(bits));
+    return mixed128<M_DIV, __int128, ORD>(a, static_cast<__int128>(bits)); });
+  }
+#else
+FM_EXPORT int fm_has_int128(void) { return 0; }
+FM_EXPORT i64 fm_mixed128(int, int, int, i64, u64, u64) { return 0; }
+#endif
+
+// the streaming operator of <fixedmath/iostream.h>
+FM_EXPORT size_t fm_stream(i64 a, char* buf, size_t cap)
+  {
+  std::ostringstream os; os << fx(a);
+  std::string s { os.str() };
+  size_t n = s.size() < cap ? s.size() : cap;
+  std::memcpy(buf, s.data(), n);
+  return s.size();
+  }
+
 FM_EXPORT i64 fm_table(int which, unsigned index)
   {
   switch(which)
